@@ -123,8 +123,10 @@ def min_count(seq):
 
 
 SIMPLE = ["H2O@1", "D2O@1.1", "NaCl@2.16", "SiO2@2.2", "C6H6@0.88", "Fe", "Ni", "Si", "Au", "CaCO3@2.7", "Ti", "Co"]
+turn = 0
 while len(cases) < ncase:
-    k = len(cases) % 5
+    k = turn % 5          # (a counter of its own: the branches add different numbers of cases)
+    turn += 1
     try:
         if k == 0:
             tree = treegen.gen_tree(rng.randint(0, 4))
